@@ -8,12 +8,18 @@ import (
 	"verif/harness/sym"
 )
 
+// c11Connect: the routes that would be registered under GET go under CONNECT instead (job parameter connect=1).
+var c11Connect bool
+
 func methodOf3(i int) string {
 	if i == 5 {
 		return "OPTIONS"
 	}
 	switch i % 3 {
 	case 0:
+		if c11Connect {
+			return "CONNECT"
+		}
 		return "GET"
 	case 1:
 		return "POST"
@@ -37,6 +43,7 @@ type c11State struct {
 func SetupC11Serve() any {
 	base := corpusSet(sym.Param("set"))
 	opts := sym.Param("opts")
+	c11Connect = sym.ParamOr("connect", 0) == 1
 	st := &c11State{ignore: map[string]bool{}, noMethod: opts&1 != 0, autoOpts: opts&2 != 0}
 	st.redirect = map[string]bool{}
 	st.redirSeen = &served{}
@@ -103,6 +110,11 @@ func (s *c11State) serves(m, host, path string) (int, lookupRes) {
 	if !res.tsr {
 		return 1, res
 	}
+	if m == "CONNECT" && s.ignore[m+" "+res.route.pattern] {
+		// no trailing-slash action is ever taken for a CONNECT request, yet the repository's own tests expect such a
+		// route to be advertised in Allow: not decided by the statement (3 = either)
+		return 3, res
+	}
 	if s.ignore[m+" "+res.route.pattern] {
 		return 2, res
 	}
@@ -129,7 +141,7 @@ func splitAllow(h string) []string {
 	return out
 }
 
-var c11ReqMethods = []string{"GET", "POST", "FOO", "OPTIONS", "DELETE"}
+var c11ReqMethods = []string{"GET", "POST", "FOO", "OPTIONS", "DELETE", "CONNECT"}
 
 // HarnessC11Serve: unserved requests get the right 404/405/OPTIONS handler and Allow header.
 func HarnessC11Serve(st any) {
@@ -164,6 +176,7 @@ func HarnessC11Serve(st any) {
 	}
 	var allow []string
 	ambiguous := false
+	connectEither := false // a CONNECT route reached by an ignored trailing slash may or may not be listed
 	for _, m := range s.methods {
 		if m == method {
 			continue
@@ -176,7 +189,9 @@ func HarnessC11Serve(st any) {
 		if r.ambiguous {
 			ambiguous = true
 		}
-		if h != 0 {
+		if h == 3 {
+			connectEither = true
+		} else if h != 0 {
 			allow = append(allow, m)
 		}
 	}
@@ -214,27 +229,41 @@ func HarnessC11Serve(st any) {
 		return
 	}
 	sym.Assert(got.pattern == "" && len(got.params) == 0, "special handlers see no route, pattern or parameters")
-	wantKind := "noroute"
-	var wantAllow []string
-	if method == "OPTIONS" && s.autoOpts {
-		if len(allow) > 0 {
-			wantKind = "options"
-			wantAllow = append(append([]string(nil), allow...), "OPTIONS")
-		}
-	} else if s.noMethod {
-		if len(allow) > 0 {
-			wantKind = "nomethod"
-			wantAllow = append([]string(nil), allow...)
-			hasOpt := false
-			for _, m := range allow {
-				if m == "OPTIONS" {
-					hasOpt = true
+	expectFor := func(allow []string) (string, []string) {
+		wantKind := "noroute"
+		var wantAllow []string
+		if method == "OPTIONS" && s.autoOpts {
+			if len(allow) > 0 {
+				wantKind = "options"
+				wantAllow = append(append([]string(nil), allow...), "OPTIONS")
+			}
+		} else if s.noMethod {
+			if len(allow) > 0 {
+				wantKind = "nomethod"
+				wantAllow = append([]string(nil), allow...)
+				hasOpt := false
+				for _, m := range allow {
+					if m == "OPTIONS" {
+						hasOpt = true
+					}
+				}
+				if s.autoOpts && !hasOpt {
+					wantAllow = append(wantAllow, "OPTIONS")
 				}
 			}
-			if s.autoOpts && !hasOpt {
-				wantAllow = append(wantAllow, "OPTIONS")
-			}
 		}
+		return wantKind, wantAllow
+	}
+	for _, m := range splitAllow(allowHdr) {
+		sym.Assert(m != method || (method == "OPTIONS" && s.autoOpts), "Allow never lists the request's own (unserved) method")
+	}
+	wantKind, wantAllow := expectFor(allow)
+	if connectEither {
+		altKind, altAllow := expectFor(append(append([]string(nil), allow...), "CONNECT"))
+		if got.kind == altKind && (altKind == "noroute" || sameStringSet(splitAllow(allowHdr), altAllow)) {
+			wantKind, wantAllow = altKind, altAllow
+		}
+		sym.Cover("CONNECT route behind an ignored trailing slash (either)")
 	}
 	sym.Assert(got.kind == wantKind, "handler kind (404 / 405 / OPTIONS) follows the router options and the other methods serving this host and path")
 	if got.kind != wantKind {
